@@ -219,7 +219,7 @@ impl<'a> Explorer<'a> {
             paths_replayed: AtomicU64::new(0),
             transpositions: AtomicU64::new(0),
             threads,
-            cap_chain_limit_heavy: if rep.quick() { 3 } else { 5 },
+            cap_chain_limit_heavy: 3, // both tiers: one ply more multiplies the work by the number of recaptures
         }
     }
 
@@ -519,7 +519,10 @@ impl<'a> Explorer<'a> {
                 // with much material the tree of capture sequences is astronomically large: chains from such
                 // states are followed to a stated length only (reported as a cap)
                 let heavy = pos.b.iter().filter(|x| **x != 0).count() > 12;
-                if heavy && node.cap_len >= self.cap_chain_limit_heavy {
+                // more than six sliders of one colour (only the king-rays family has that): every capture is
+                // answered by a dozen recaptures, the chains are cut at length 3 in both tiers
+                let slider_heavy = heavy && [rules::WHITE, rules::BLACK].iter().any(|c| pos.b.iter().filter(|x| **x != 0 && rules::color_of(**x) == *c && matches!(rules::kind_of(**x), k if k == rules::Q || k == rules::R || k == rules::B)).count() > 6);
+                if heavy && node.cap_len >= if slider_heavy { 3 } else { self.cap_chain_limit_heavy } {
                     bump(l, "capture_chains_cut_at_the_length_cap_for_positions_with_more_than_12_pieces");
                     continue;
                 }
@@ -1364,12 +1367,18 @@ pub fn run(rep: &Report, focus: Focus) -> E1Result {
     let mut family_summary: Vec<J> = Vec::new();
 
     // ---- S1: reach graph, roots grouped by depth limit so that each group is one BFS
-    let roots = s1_roots(quick);
+    // the producer passes of C06, C14 and C18 are secondary to those properties' own enumerations: their thorough
+    // tier walks the quick tier's reach graph to its full quick depth (one ply more than their quick tier)
+    let secondary = focus.check_detection || focus.eval_purity || focus.pv_descriptor;
+    // (C13 follows every capture chain below every state: its thorough tier keeps the quick tier's reach graph,
+    // at its full depth, and the families without the extra plies; Kk+X and castle+2 are added)
+    let roots = s1_roots(quick || secondary || focus.captures);
+    let follow = !quick && !focus.captures;
     let budget: u64 = if quick { if focus.captures { 2_000_000 } else { 1_000_000 } } else { 40_000_000 };
     let mut by_depth: BTreeMap<u16, Vec<Node>> = BTreeMap::new();
     for (n, d) in roots {
         // capture chains multiply the work below every state: the quick tier of C13 goes one ply less deep
-        let d = if (focus.captures || focus.check_detection || focus.eval_purity || focus.pv_descriptor) && quick { d.saturating_sub(1).max(1) } else { d };
+        let d = if focus.captures || ((focus.check_detection || focus.eval_purity || focus.pv_descriptor) && quick) { d.saturating_sub(1).max(1) } else { d };
         by_depth.entry(d).or_default().push(n);
     }
     for (d, group) in by_depth {
@@ -1417,6 +1426,9 @@ pub fn run(rep: &Report, focus: Focus) -> E1Result {
                 });
             }
         });
+        if std::env::var("WMC_PROGRESS").is_ok() {
+            eprintln!("[e1] family {}: {} states in {:.1} s", &name[..name.len().min(30)], ex.states.load(Ordering::Relaxed) - before, t0.elapsed().as_secs_f64());
+        }
         family_summary.push(
             J::obj()
                 .set("space", J::s(&format!("S2 family {}", name)))
@@ -1448,7 +1460,7 @@ pub fn run(rep: &Report, focus: Focus) -> E1Result {
         run_family(
             "castle (king+rook(s) at home with rights, enemy king anywhere, one further piece anywhere, both sides to move)",
             items,
-            if quick { 0 } else { 1 },
+            if follow { 1 } else { 0 },
         );
         if !quick {
             // second piece: every enemy piece type (attackers of the transit squares) and an own knight (blocker)
@@ -1479,7 +1491,7 @@ pub fn run(rep: &Report, focus: Focus) -> E1Result {
         run_family(
             "ep (pawn just double-stepped with target set, enemy pawn left/right/both, one king anywhere, one slider/knight of either colour anywhere)",
             items,
-            if quick { 0 } else { 1 },
+            if follow { 1 } else { 0 },
         );
         let mut items: Vec<Item> = Vec::new();
         for c in [rules::WHITE, rules::BLACK] {
@@ -1490,7 +1502,7 @@ pub fn run(rep: &Report, focus: Focus) -> E1Result {
         run_family(
             "ep-discovered (slider, victim pawn and the victim's king on one line, one further piece of the checked side anywhere; the capture is followed one ply)",
             items,
-            if quick { 0 } else { 1 },
+            if follow { 1 } else { 0 },
         );
     }
     // promotion (not needed for C06's producer pass nor for C18's descriptor pass)
@@ -1505,14 +1517,15 @@ pub fn run(rep: &Report, focus: Focus) -> E1Result {
                 }
             }
         }
-        run_family("promo (pawn one step from promotion, one king anywhere, one enemy piece anywhere)", items, if quick { 0 } else { 1 });
+        run_family("promo (pawn one step from promotion, one king anywhere, one enemy piece anywhere)", items, if follow { 1 } else { 0 });
         if !focus.eval_purity {
-        run_family("promo+rights (as promo, enemy king and rook(s) at home with castling rights; followed one ply further so that castling right after a promotion occurs)", items_r, if quick { 1 } else { 2 });
+        run_family("promo+rights (as promo, enemy king and rook(s) at home with castling rights; followed one ply further so that castling right after a promotion occurs)", items_r, if follow { 2 } else { 1 });
         }
     }
     // pins and sliders all round the king (the legality filter's hardest input), complete product
     if !focus.skip_kkx && !focus.eval_purity && !focus.keys {
-        let n_cfg: usize = if quick { 4 } else { 7 };
+        // (capture chains below sixteen sliders do not end in reasonable time: C13 keeps the small alphabet)
+        let n_cfg: usize = if quick || focus.captures { 4 } else { 7 };
         let mut items: Vec<Item> = Vec::new();
         for c in [rules::WHITE, rules::BLACK] {
             for first in 0..n_cfg * n_cfg {
